@@ -68,6 +68,7 @@ def sequence_case(L, n_org, n_hum, with_boss, first):
                         out.append(("assign", "works_for", hh, oo))
                     out.append(("append", "member_of", hh, oo))
                 out.append(("assign-container", "member_of", hh, tuple(O[:1])))
+                out.append(("iadd", "member_of", hh, tuple(O[-1:])))
             for oo in O:
                 for hh in H:
                     out.append(("add", "members", oo, hh))
@@ -75,6 +76,11 @@ def sequence_case(L, n_org, n_hum, with_boss, first):
                 for o2 in O:
                     if o2 != oo:
                         out.append(("append", "sub_org_of", oo, o2))
+                        if n_org > 2:
+                            out.append(("append", "partner_of", oo, o2))  # another property on the same ordered pair
+                if n_org > 2:
+                    out.append(("iadd", "sub_org_of", oo, (O[(oo + 1) % n_org],)))  # augmented assignment
+                out.append(("ior", "members", oo, tuple(H[:1])))
                 if len(O) > 2:
                     out.append(("assign-container", "sub_org_of", oo, tuple(x for x in O if x != oo)[:2]))
             for bb in B:
@@ -102,6 +108,14 @@ def sequence_case(L, n_org, n_hum, with_boss, first):
                 elif form in ("append", "add"):
                     getattr(getattr(objs[subj], fld), form)(objs[obj])
                     facts.add((fld, subj, obj))
+                elif form == "iadd":
+                    exec("o.%s += v" % fld, {"o": objs[subj], "v": [objs[i] for i in obj]})
+                    for i in obj:
+                        facts.add((fld, subj, i))
+                elif form == "ior":
+                    exec("o.%s |= v" % fld, {"o": objs[subj], "v": {objs[i] for i in obj}})
+                    for i in obj:
+                        facts.add((fld, subj, i))
                 else:
                     cur = getattr(objs[subj], fld)
                     if len(cur) > 0:
@@ -127,7 +141,7 @@ def sequence_case(L, n_org, n_hum, with_boss, first):
         # the fields agree with the graph
         field_facts = set()
         for i, o in enumerate(objs):
-            for fld in ("works_for", "member_of", "members", "sub_org_of", "head_of"):
+            for fld in ("works_for", "member_of", "members", "sub_org_of", "partner_of", "head_of"):
                 if not hasattr(type(o), fld):
                     continue
                 val = getattr(o, fld)
@@ -220,7 +234,7 @@ def cases(tier, seed):
         firsts = [("assign", "works_for", H[0], O[0]), ("append", "member_of", H[0], O[0]), ("add", "members", O[0], H[0]), ("assign-container", "members", O[0], tuple(H[:2])),
                   ("append", "sub_org_of", O[0], O[1]), ("append", "sub_org_of", O[1], O[0])]
         if n_org > 2:
-            firsts += [("append", "sub_org_of", O[1], O[2]), ("assign-container", "sub_org_of", O[0], tuple(x for x in O if x != O[0])[:2])]
+            firsts += [("append", "sub_org_of", O[1], O[2]), ("assign-container", "sub_org_of", O[0], tuple(x for x in O if x != O[0])[:2]), ("append", "partner_of", O[1], O[2]), ("iadd", "sub_org_of", O[0], (O[1],))]
         if boss:
             firsts += [("assign", "head_of", B[0], O[0]), ("add", "members", O[0], B[0])]
         for f in firsts:
@@ -232,7 +246,7 @@ def cases(tier, seed):
 def describe(tier):
     L = 3 if tier == "quick" else 4
     return dict(
-        rule="sequences of %d assertions (bounded symbolic choices of subject, object, property and write form: single-valued assignment, container assignment, append/add) "
+        rule="sequences of %d assertions (bounded symbolic choices of subject, object, property and write form: single-valued assignment, container assignment, append/add, += / |=) "
         "over a population of orgs, humans and a boss role (harness ontology: WorksFor < MemberOf, Member inverse of MemberOf, HeadOf < WorksFor living on the role taker, "
         "transitive SubOrgOf; and Holds < Touches < Near without inverses on a class with all three fields and on one without the middle field) - all orders, diamonds and cycles within the bound; the relations in the real SymbolGraph must equal a reference fixpoint closure of the "
         "asserted facts and every managed field must hold exactly (as a set) the graph's outgoing relations for that field (multiplicities in list fields are C16's subject). non-trivial = every path asserts facts" % L,
